@@ -597,6 +597,13 @@ def norm(e):
         if e[1].endswith("FromResidual::from_residual") and args and args[0][0] == "phi" and args[0][1] and all(x[0] == "residual" for x in args[0][1]):
             # several `?` sharing one error exit (an unrolled loop body): the error of whichever failed is propagated
             return ("errprop", mkphi(tuple(x[1] for x in args[0][1])))
+        # the sentinel clamp spelled with a checked conversion:  uN::try_from(x).unwrap_or(uN::MAX)  ==  min(x, uN::MAX) as uN
+        # (x unsigned: lengths, counts, stream positions)
+        if e[1].endswith("::unwrap_or") and len(args) == 2 and args[0][0] == "call" and re.search(r"TryFrom|try_from|TryInto|try_into", args[0][1]) and \
+                args[1][0] in ("const", "named") and isinstance(args[1][2], int) and (args[1][1], args[1][2]) in (("u8", 0xFF), ("u16", 0xFFFF), ("u32", 0xFFFFFFFF)) \
+                and len(args[0][2]) == 1:
+            x_ = args[0][2][0]
+            return ("cast", ("call", "core::cmp::Ord::min", (x_, ("const", "u64", args[1][2])), None) + e[4:], "u64", args[1][1])
         return ("call", e[1], args) + e[3:]
     if k == "agg":
         return ("agg", e[1], e[2], tuple((f, norm(a)) for f, a in e[3]))
